@@ -82,8 +82,12 @@ class Harness:
             if op["key"] not in SUB_KEYS.get(node["kind"], []):
                 return []
             value = op["value"]
-            setattr(obj, op["key"], R._sub(copy.deepcopy(value), self.env))
-            node.setdefault("sub", {})[op["key"]] = copy.deepcopy(value)
+            if value == NP:
+                setattr(obj, op["key"], True if op["key"].startswith("additional") else NotPassed())
+                node.setdefault("sub", {}).pop(op["key"], None)
+            else:
+                setattr(obj, op["key"], R._sub(copy.deepcopy(value), self.env))
+                node.setdefault("sub", {})[op["key"]] = copy.deepcopy(value)
         elif kind == "set_props":
             if node["kind"] not in ("Element", "Object"):
                 return []
@@ -252,7 +256,11 @@ class Machine(RuleBasedStateMachine):
             return
         nid = data.draw(st.sampled_from(ids))
         node = R.index(self.h.model)[nid]
-        key = data.draw(st.sampled_from(SUB_KEYS[node["kind"]]))
+        present = sorted(k for k in node.get("sub", {}) if k in SUB_KEYS[node["kind"]])
+        if present and data.draw(st.booleans()):
+            key = data.draw(st.sampled_from(present))  # re-configure a keyword that is in use
+        else:
+            key = data.draw(st.sampled_from(SUB_KEYS[node["kind"]]))
         self.counter += 1
         gen = fresh_gen(self.counter)
         sub = lambda: data.draw(R._node(CFG, 1, gen))  # noqa: E731
@@ -264,7 +272,17 @@ class Machine(RuleBasedStateMachine):
             value = sub() if key == "contains" else {"id": gen.new_id(), "kind": "String",
                                                       "kw": {"maxLength": data.draw(st.integers(0, 3))}}
         elif key == "patternProperties":
-            value = {data.draw(st.sampled_from(R.PATTERNS)): sub()}
+            current = node.get("sub", {}).get("patternProperties")
+            how = data.draw(st.sampled_from(["new", "new", "relax", "empty", "remove"]))
+            if how == "relax" and current:
+                # same patterns, accept-all elements: verdicts that the old pattern elements decided must flip
+                value = {k: {"id": gen.new_id(), "kind": "Element", "kw": {}} for k in current}
+            elif how == "empty":
+                value = {}
+            elif how == "remove":
+                value = NP
+            else:
+                value = {data.draw(st.sampled_from(R.PATTERNS)): sub()}
         else:
             value = {data.draw(st.sampled_from(["a", "b", "class"])):
                      (data.draw(st.lists(st.sampled_from(["a", "b", "d"]), max_size=2, unique=True))
